@@ -99,4 +99,16 @@ META = {
         note="Timestamps are taken at entry of the transport's Write on the bubble's virtual clock; the scripted peer is built on refcodec.",
         technique="runtime monitoring under enumerated peer-fault scripts: transport write log (count, identity, spacing in virtual time), dial outcome, close log, handler log, goroutine-leak check at bubble end",
     ),
+    "C13": dict(
+        text="Fault enumeration: every combination of retransmission budget, interval pair, peer answer pattern and transport schedule (about 260 scripts, repeated) runs against the real watchdog under a virtual clock, so spacing, counts and the instant of the close are exact; liveness is restated as a minimum number of rounds within a virtual horizon.",
+        design_ref="DESIGN.md section 4, C13",
+        note="Timestamps are taken at entry of the transport's Write in virtual time; the 'Write returns late' schedule holds the writer inside the transport while the peer's answer is processed - an existing suspension point of the library.",
+        technique="runtime monitoring under enumerated peer/transport fault scripts in virtual time: offline checker over the DWR write log, close log, goroutine dump after close",
+    ),
+    "C14": dict(
+        text="Fault enumeration: the complete set of event orderings up to the bound (several thousand) is executed with the ordering imposed as the schedule through quiescence points, plus randomised racing runs and the watchdog client; verdicts are facts at quiescence (channel closed or not, goroutines present or not), not time-outs.",
+        design_ref="DESIGN.md section 4, C14",
+        note="Quiescence is synctest's: every goroutine of the bubble durably blocked. A goroutine that waits on a mutex or runs for ever on timers prevents quiescence; the bubble watchdog then decides from the goroutine dump (see DESIGN.md).",
+        technique="runtime monitoring over enumerated event orderings in synctest bubbles: channel-state assertions at quiescence, message-log comparison, log scan, goroutine-dump diff; race detector on the racing variant",
+    ),
 }
